@@ -479,6 +479,11 @@ def _sym(e, env: Env) -> Sym:
         return Sym("config")
     if isinstance(e, ast.Name) and e.id in env.vars:
         return env.vars[e.id]
+    if env.report and not isinstance(e, ast.Name) and _is_exc_value(e, env):
+        return Sym("excvalue")
+    k = _config_key(e, env)
+    if k is not None and k not in FLAGS:
+        return Sym("cfgvalue", k)
     if isinstance(e, ast.Call):
         m = _mark_name(e, env, "get_marks", MARKS + ["skipif"])
         if m is not None:
@@ -844,7 +849,9 @@ def _is_report_attr(e, env: Env, attr: str) -> bool:
 
 
 def _is_exc_value(e, env: Env) -> bool:
-    """`report.exc_info[1]`"""
+    """`report.exc_info[1]` (or a local bound to it)"""
+    if isinstance(e, ast.Name):
+        return env.vars.get(e.id, UNKNOWN).kind == "excvalue"
     return isinstance(e, ast.Subscript) and _is_report_attr(e.value, env, "exc_info") and isinstance(e.slice, ast.Constant) \
         and e.slice.value == 1
 
@@ -977,7 +984,8 @@ def _racts(stmts, env: Env):
                 l, r = t.left, t.comparators[0]
                 op = CMP[type(t.ops[0])]
                 def is_n(x): return isinstance(x, ast.Attribute) and x.attr == "n_tasks_failed" and _is_name(x.value, env.session or "")
-                def is_m(x): return _config_key(x, env) == "max_failures"
+                def is_m(x): return _config_key(x, env) == "max_failures" or (
+                    isinstance(x, ast.Name) and env.vars.get(x.id, UNKNOWN).kind == "cfgvalue" and env.vars[x.id].val == "max_failures")
                 if is_n(l) and is_m(r):
                     acts.append(("stopIf", (op,))); continue
                 if is_m(l) and is_n(r):
